@@ -39,14 +39,15 @@ def parseFV (s : String) : Option FV :=
 def kv (key : String) (s : String) : Option String :=
   if s.startsWith (key ++ "=") then some ((s.drop (key.length + 1)).toString) else none
 
-def parseStyle (o r hc hs bc bs : String) : Option Style := do
+def parseStyle (o r hc hs bc bs u : String) : Option Style := do
   let o ← kv "o" o >>= parseOptName
   let r ← kv "r" r >>= parseBool
   let hc ← kv "hc" hc >>= String.toNat?
   let hs ← kv "hs" hs >>= parseCps
   let bc ← kv "bc" bc >>= String.toNat?
   let bs ← kv "bs" bs >>= parseCps
-  some { origin := o, relativize := r, hexChunk := hc, hexSep := hs, b64Chunk := bc, b64Sep := bs }
+  let u ← kv "u" u >>= parseBool
+  some { origin := o, relativize := r, hexChunk := hc, hexSep := hs, b64Chunk := bc, b64Sep := bs, txtUtf8 := u }
 
 def splitDump (ts : List String) : Option (List FV × Option FV) :=
   match ts.span (· ≠ "/") with
@@ -66,6 +67,11 @@ def handleC05 : List String → Option String
   | ["c05.ip6.ntoa", a] => do let a ← ofHex a; some (okCps (ip6Ntoa a))
   | ["c05.ip6.aton", t] => do let t ← parseCps t; some (okHex (ip6Aton t))
   | ["c05.esc", b] => do let b ← ofHex b; some ("ok " ++ showCps (escapifyR b))
+  | ["c05.escu", t] => do let t ← parseCps t; some ("ok " ++ showCps (escapifyUWith ConstsC05.unicodeEscaped t))
+  | ["c05.utf8dec", b] => do let b ← ofHex b; some (okCps (utf8Decode b))
+  | ["c05.txtelem", b] => do
+    let b ← ofHex b
+    some ("ok " ++ showCps (txtElement true ConstsC05.unicodeEscaped Consts.rdataEscaped b))
   | ["c05.unesc", t] => do let t ← parseCps t; some (okCps (unescapeCP t))
   | ["c05.unescb", t] => do let t ← parseCps t; some (okHex (unescapeBytes t))
   | ["c05.lex", t] => do
@@ -91,8 +97,8 @@ def handleC05 : List String → Option String
   | ["c05.generic.print", d, hc, hs] => do
     let d ← ofHex d; let hc ← hc.toNat?; let hs ← parseCps hs
     some ("ok " ++ showCps (printGeneric { hexChunk := hc, hexSep := hs } d))
-  | "c05.print" :: tn :: o :: r :: hc :: hs :: bc :: bs :: dump => do
-    let st ← parseStyle o r hc hs bc bs
+  | "c05.print" :: tn :: o :: r :: hc :: hs :: bc :: bs :: u :: dump => do
+    let st ← parseStyle o r hc hs bc bs u
     let sch ← schemaOf tn
     let (vals, tail) ← splitDump dump
     some (okCps (printRec sch st vals tail))
